@@ -319,6 +319,8 @@ where
         }
 
         for x in self.digraph.out_neighbors(v) {
+            assert!(x < self.visited.len(), "x = {x} isn't in the digraph");
+
             if !unsafe { *visited_ptr.add(x) } {
                 self.stack.push((Some(v), x));
             }
